@@ -4,7 +4,7 @@
 From Coq Require Import String NArith ZArith List Bool Sorted Permutation.
 From V Require Import Base.UString Base.Json Model.JcsText Model.Jcs Spec.Rfc8785 Spec.JcsSpec Spec.JsonParse
   Spec.NumValue Proofs.JcsNumFacts Proofs.JcsEscFacts Proofs.JcsKeyFacts Proofs.JcsCanonFacts Proofs.JcsWsFacts Proofs.JcsParseFacts
-  Proofs.JcsNumValue Proofs.JcsNumRound.
+  Spec.Reread Proofs.JcsNumValue Proofs.JcsNumRound Proofs.JcsReread.
 Import ListNotations.
 Open Scope N_scope.
 
@@ -154,3 +154,25 @@ Print Assumptions num_roundtrip.
 Example denotes_example : denotes (u "1.5e+21") false [1; 5] 22 /\ denotes (u "1500") false [1; 5] 4 /\
                           denotes (u "0.0000015") false [1; 5] (-5).
 Proof. repeat split; [exists O|exists 2%nat|exists O]; vm_compute; reflexivity. Qed.
+
+(* ---- the fixed point through a reader that interprets numbers -------------------------------- *)
+(* canonicalize(json.loads(t)) = t.  Binary floating point is not modelled; what it must
+   provide is stated as hypotheses of the theorem (not axioms), about two parameters:
+     is_double neg ds n   (neg, ds, n) are the shortest round-trip digits of a finite non-zero double
+     rr t                 repr(float(<the JSON number t>))  (through int first for integer texts)
+   H_wf    such digits are 1..17 digits without leading / trailing zero;
+   H_read  reading ANY text that denotes the decimal 0.d1...dk * 10^n gives that double back, and
+           its repr is the one built from the shortest digits (correct rounding of float()/int->float,
+           shortest-digits repr);
+   H_zero  rr "0" = "0.0".
+   Under them: the canonical text parses (independent reader) to json_of v, and canonicalizing what a
+   number-interpreting reader returns for it gives the same text again.                              *)
+Theorem canon_reread_fixpoint :
+  forall (is_double : bool -> list N -> Z -> Prop) (rr : ustring -> ustring),
+  (forall neg ds n, is_double neg ds n -> wf_digits ds) ->
+  (forall neg ds n t, is_double neg ds n -> denotes t neg ds n -> rr t = py_repr neg ds n) ->
+  rr [c_0] = [c_0; c_dot; c_0] ->
+  forall v t, nums_double is_double v -> canon v = JOk t ->
+    parse_json t = Some (json_of v) /\ canon (reread_deep rr (json_of v)) = JOk t.
+Proof. exact canon_reread_fixpoint_proof. Qed.
+Print Assumptions canon_reread_fixpoint.
